@@ -804,16 +804,16 @@ theorem reDashComma_oneByte :
 /-- the example of `Tuc.Props.C16` (`-e '[-,]' -g -r R -f 2:3`) on EVERY record and for every
     replacement `R` -/
 theorem exOpt_greedy_replace_eq_spec (line R : Bytes) :
-    (cutStrCore line (exOpt true (Option.some R)) [10]).1 =
-      specRecordRe (cfgOf (exOpt true (Option.some R))) (Re.bag reDashComma) line :=
-  regexCut_replace_greedy_oneByte (exOpt true (Option.some R)) reDashComma _ reDashComma_oneByte
+    (cutStrCore line (exOptRe true (Option.some R)) [10]).1 =
+      specRecordRe (cfgOf (exOptRe true (Option.some R))) (Re.bag reDashComma) line :=
+  regexCut_replace_greedy_oneByte (exOptRe true (Option.some R)) reDashComma _ reDashComma_oneByte
     line R rfl rfl rfl rfl rfl (Or.inl rfl)
     (by
       intro b hb
-      simp only [exOpt, List.mem_singleton, BoF.bound.injEq] at hb
+      simp only [exOptRe, List.mem_singleton, BoF.bound.injEq] at hb
       subst hb
       exact ⟨by simp [Side.Nonzero], by simp [Side.Nonzero]⟩)
-    (by simp [exOpt, LastMarked, countBounds])
+    (by simp [exOptRe, LastMarked, countBounds])
 
 /-! ## `GreedyTiled`: tested beyond one-byte expressions, and necessary
 
